@@ -167,6 +167,22 @@ def moving(chk, q):
                                                                                          'got': got.tolist(), 'expected': [None if x is None else float(x) for x in want]},
                                   f'{name}({s}, {w}) = {got.tolist()} expected {[None if x is None else float(x) for x in want]}')
         chk.traces_validated += 1
+    # values whose running sums are not representable in the input's own half / single precision (1024 + 1024 + 1 in float16, 2^24 + 1 in float32)
+    for alpha, dt in (('{0, 1, 1024}', 'float16'), ('{0, 1, 16777216}', 'float32')):
+        rbig = tlc.run('SigEnum', cfg_text=tlc.cfg(constants={'Mode': 'winsum', 'MaxLen': 4 if q else 5, 'MinLen': 2, 'Gen': True, 'MaxPat': 1}, invariants=['Emit']), defs={'Alphabet': alpha}, workers=1)
+        chk.add_tlc(f'GEN:windowed sums / means over {alpha} ({dt} inputs)', rbig)
+        for e in rbig.emits():
+            s = e['sig']
+            arr = np.array(s, dtype=dt)
+            for name, fn, key in (('moving_sum', sp.moving_sum, 'sum'), ('moving_mean', sp.moving_mean, 'mean')):
+                for w in range(1, len(s) + 1):
+                    got = np.asarray(fn(arr, w))
+                    want = [x[key] if key == 'sum' else fr(x[key]) for x in e['win'][w - 1]]
+                    chk.count((name, tuple(s), w, dt), nontrivial=w >= 2)
+                    if not close(got, want, 1e-9):
+                        chk.violation(f'{name}:equals the naive statistic of every window', {'property': 'C19', 'part': 'moving', 'op': name, 'signal': s, 'window': w, 'axis': -1, 'dtype': dt,
+                                                                                             'got': got.tolist(), 'expected': [float(x) for x in want]}, f'{name}({s} as {dt}, {w}) = {got.tolist()} expected {[float(x) for x in want]}')
+            chk.traces_validated += 1
     rr = random.Random(chk.seed)
     for L in by_len:
         rr.shuffle(by_len[L])
